@@ -452,6 +452,9 @@ class LoopTranslator:
             ety = v.ty[3:-1]
             cx.lets.append(f"let {nm} : Int → {lean_ty(ety)} := fun c => {v.lean} {i0} c")
             cx.env[name] = Var(nm, f"A({ety})", (v.lens[1],), v.width)
+            # a row of a 2-d array is a *view*: the snapshot taken here is faithful only if neither the base nor the view is
+            # written afterwards in this function (checked syntactically)
+            self.views.append((name, value.value.id, getattr(value, "lineno", 0)))
             return True
         # a[:, ::-1]
         if isinstance(value, ast.Subscript) and isinstance(value.value, ast.Name) and isinstance(value.slice, ast.Tuple) \
@@ -589,10 +592,11 @@ class LoopTranslator:
                     if self.special_assign(cx, tgt.id, s.value):
                         continue
                     v, t = self.expr(cx, s.value)
-                    like = None
                     if isinstance(s.value, ast.Name) and t.startswith("A"):
-                        like = cx.env[s.value.id]
-                    self.assign_name(cx, tgt.id, v, t, like)
+                        # `x = y` for arrays is an alias in Python: a later store through one name is visible through the
+                        # other, which value semantics cannot express - refuse (use `.copy()` in the source for a copy)
+                        raise TranslateError(f"{self.fname}: array alias {tgt.id} = {s.value.id}")
+                    self.assign_name(cx, tgt.id, v, t, None)
                     continue
                 if isinstance(tgt, ast.Subscript):
                     v, t = self.expr(cx, s.value)
@@ -1050,6 +1054,7 @@ class LoopTranslator:
             sig.append(f"({lp} : {lean_ty(t)})")
             cx.env[p] = Var(lp, t, lens, (True, 64) if t == "A(Int)" else None, opt)
         cx.env["err!"] = Var("false", "Bool")
+        self.views = []
         self.uses_div = False
         self.extra_params = {}
         self.ret_ty = None
@@ -1060,6 +1065,18 @@ class LoopTranslator:
             raise TranslateError(f"{self.fname}: no return")
         if esc == "RAISE":
             raise TranslateError(f"{self.fname}: function always raises")
+        for view, base, line in self.views:
+            for n in ast.walk(fn):
+                tgts = []
+                if isinstance(n, ast.Assign):
+                    tgts = n.targets
+                elif isinstance(n, ast.AugAssign):
+                    tgts = [n.target]
+                for t in tgts:
+                    for sub in (t.elts if isinstance(t, ast.Tuple) else [t]):
+                        if isinstance(sub, ast.Subscript) and isinstance(sub.value, ast.Name) and sub.value.id in (view, base) \
+                                and getattr(sub, "lineno", 0) > line:
+                            raise TranslateError(f"{self.fname}: store into {sub.value.id} after the view {view} of {base} was taken")
         ret_ty = self.ret_ty
         if self.pending_ret is not None:
             res, rty = self.pending_ret
